@@ -11,7 +11,7 @@ def step (_ : Unit) (ws : List String) : Unit × String :=
   match ws with
   | "up" :: _ => ((), "ok")
   | ["start", _] | ["kill", _] | ["stop", _] | ["cont", _] | ["settle", _] => ((), "ok")
-  | "pub" :: _ | "rm" :: _ | "reg" :: _ | "dereg" :: _ => ((), "*")
+  | "pub" :: _ | "rm" :: _ | "reg" :: _ | "dereg" :: _ | "beat" :: _ => ((), "*")
   | "get" :: _ => ((), "*")
   | "getall" :: _ => ((), "all **")
   | "listall" :: _ => ((), "lists **")
